@@ -218,6 +218,9 @@ func runC09(c *Ctx) {
 	checkEarlyWgOrdering(c)
 
 	// ---------------------------------------------------------------- R11
+	c.rule("R12", "a connection below its limit admits another query: the id allocator refuses only when the 16-bit id space is exhausted, not after a fixed number of probes", 1)
+	checkIdSearchNotBoundedByProbes(c)
+
 	c.rule("R11", "what a query occupies besides its reservation is given back on every exit: its wire id leaves the waiter table by an unconditional deferred removal; a QUIC stream's receive side is released (CancelRead) on every path; every ReservedExchanger implementation is known", 5)
 	{
 		var ins *ssa.Function
